@@ -10,8 +10,24 @@ RULE = ("regression corpus + the repository's test snippets + seeded random prog
 NEED_REPARSE = False
 
 
+def directive_table():
+    """Directive prologues at file level x program kind (script / module) x what precedes or follows them, each with something that
+    is instrumented (so that the `let` and the file prologue have to find their place)."""
+    import vlib
+    heads = ["'use strict';", "'use client'\n\"use strict\";", "'use asm'; 'other';", "#!/usr/bin/env node\n'use strict';", "// c\n'use strict' // t\n;", "/* c */ 'use strict'",
+             "", "'use strict'\n'use strict'", ";'use strict';", "('use strict');", "'use\\x20strict';"]
+    kinds = ["function f(a, b) { return a + b }", "import x from 'y'\nexport function f(a, b) { return a + b }", "export default (a, b) => { 'use strict'; return a + b }",
+             "export const g = function (a) { 'one'; 'two'; return a.trim() }", "import 'side'\nfunction f(a){ return `${a}` }", "class K { m(a) { 'use strict'; return a + 1 } static { 'no directive here'; k = a + b } }",
+             "function f(a) { 'use strict' ; { 'not a directive'; return a + a } }", "export {}; function f(a, b) { 'a'; 'b'; 'c'; return a + b }"]
+    out = []
+    for hi, h in enumerate(heads):
+        for ki, k in enumerate(kinds):
+            out.append({"id": "dir-%d-%d" % (hi, ki), "config": vlib.default_config(comments=(hi + ki) % 2 == 0), "calls": [{"code": (h + "\n" if h else "") + k + "\n", "file": "d.js"}], "opts": {}})
+    return out
+
+
 def cases(O):
-    return E.default_cases(O, "C07", n_quick=900, n_thorough=15000)
+    return E.default_cases(O, "C07", n_quick=900, n_thorough=15000) + directive_table()
 
 
 def judge(ctx):
